@@ -812,6 +812,14 @@ def map_oracle(ctx, li, app, m, url, ans, summ):
     outside = coords_in_grid(li, summ)
     if outside:
         ctx.fail('map,cache-coordinate-outside-grid', 'cache operation on a coordinate outside the grid: %r for %s' % (outside[:3], url), rep)
+    # WMS-C: a tiled=true request addresses a tile by its BBOX; a BBOX that is no tile of the advertised tile set (no
+    # level has a tile of the grid whose four borders are within 1/10 of a request pixel) must be refused without cost
+    if m['tiled'] and (ans == 'Ok' or cost) and (app.srs_extent is None or _contains(app.srs_extent, m['bbox'])):
+        near = addressed_tile(li, m)
+        if near is None:
+            ctx.fail('map,tiled,not-a-tile,' + ('answered' if ans == 'Ok' else 'effects'),
+                     'tiled=true request whose BBOX %r (%dx%d) is not a tile of the tile set (nearest tile borders differ by %s request pixels) '
+                     'was answered %r with %r: %s' % ([float(v) for v in m['bbox']], m['w'], m['h'], nearest_tile_offsets(li, m), ans, cost[:3], url), rep)
     if app.max_pixels and m['w'] * m['h'] > app.max_pixels[0] * app.max_pixels[1]:
         if ans == 'Ok':
             ctx.fail('map,pixel-limit,answered', 'request of %dx%d pixels answered although max_output_pixels is %r' % (m['w'], m['h'], app.max_pixels), rep)
